@@ -222,7 +222,7 @@ Log(m) == /\ pick = m.kind /\ pick' = ""
           /\ muts' = Append(muts, m) /\ budget' = [budget EXCEPT !.mut = @ - 1]
           /\ UNCHANGED <<types, fns, vars, phase>>
 BreakingKinds == {"member-insert", "member-remove", "member-swap", "member-type", "enumerator-value", "array-dim",
-                  "param-add", "param-remove", "return-type", "fn-remove", "var-remove"}
+                  "param-add", "param-remove", "return-type", "fn-remove", "var-remove", "fnptr-param-add", "fnptr-param-remove"}
                  \cup (IF Lang = "cxx" THEN {"base-add", "base-remove", "virtual-add", "virtual-remove"} ELSE {})
 UnlistedKinds == {"var-type"}     \* ABI-relevant edits the statement of C05 does not list: used by the relational campaigns only
 HarmlessKinds == {"enumerator-append", "typedef-rename", "param-top-const"}
@@ -288,6 +288,13 @@ Breaking ==
          /\ vars2' = RemoveAt(vars2, k)
          /\ UNCHANGED <<types2, fns2, fresh>> /\ Log(Mut("var-remove", "breaking", 0, vars2[k].id, 0))
 
+  \/ pick = "fnptr-param-add" /\ \E i \in {i \in Live2 : types2[i].k = "fnptr" /\ Len(types2[i].m) < 3} :
+       \E t \in {t \in TRef(types2) : types2[t].k = "base"} :
+         /\ types2' = [types2 EXCEPT ![i].m = Append(@, [n |-> 0, t |-> t, bw |-> 0, acc |-> ""])]
+         /\ UNCHANGED <<fns2, vars2, fresh>> /\ Log(Mut("fnptr-param-add", "breaking", i, 0, Len(types2[i].m) + 1))
+  \/ pick = "fnptr-param-remove" /\ \E i \in {i \in Live2 : types2[i].k = "fnptr" /\ Len(types2[i].m) > 0} : \E p \in 1..Len(types2[i].m) :
+         /\ types2' = [types2 EXCEPT ![i].m = RemoveAt(@, p)]
+         /\ UNCHANGED <<fns2, vars2, fresh>> /\ Log(Mut("fnptr-param-remove", "breaking", i, 0, p))
   \/ pick = "base-add" /\ \E i \in {i \in Live2 : types2[i].k = "struct"} :
        \E j \in {j \in TRef(types2) : types2[j].k = "struct" /\ j # i} :
          /\ i \notin ByVal(types2, j) /\ Len(types2[i].b) < 2 /\ \A k \in 1..Len(types2[i].b) : types2[i].b[k] # j
@@ -345,6 +352,9 @@ Expect ==
        changedFns |-> ChangedFns, changedVars |-> ChangedVars,
        abiChanged |-> (RemovedFns \cup RemovedVars \cup ChangedFns \cup ChangedVars \cup AddedFns) # {},
        nBreaking |-> Cardinality(brk), nHarmless |-> Cardinality(hl),
+       \* interfaces of program 1 that a *breaking* catalogue entry touches: directly, or through a type they reach
+       brkFns |-> {fns[k].id : k \in {k \in 1..Len(fns) : \E j \in brk : muts[j].iface = fns[k].id \/ (muts[j].ty # 0 /\ muts[j].ty \in FnReach(types, fns[k]))}},
+       brkVars |-> {vars[k].id : k \in {k \in 1..Len(vars) : \E j \in brk : muts[j].iface = vars[k].id \/ (muts[j].ty # 0 /\ muts[j].ty \in VarReach(types, vars[k]))}},
        \* some mutated type is a union or sits by value inside a union (see known finding C05-same-size-change-in-union)
        inUnion |-> \E i \in MutTypes : \E u \in TRef(types2) : types2[u].k = "union" /\ i \in ByVal(types2, u) ]
 
